@@ -4,21 +4,21 @@ From PGF Require Import Base.Prelude Base.PyStr Model.Fdr Model.Results Model.Pr
 Fixpoint tab_gen {K V} (e : K -> K -> bool) (d : V) (t : list (K * V)) (k : K) : V :=
   match t with [] => d | (a, b) :: r => if e a k then b else tab_gen e d r k end.
 
-Definition c07_tabs := (list (list pinfo * Q) * list (list Q * Q) * list (Q * Q) * list (str * str)
+Definition c07_tabs := (list (list pinfo * Q) * list ((list Q * Q) * Q) * list (Q * Q) * list (str * str)
                         * list ((list str * list str) * list (list str * list str)))%type.
 Definition mk_oracles (t : c07_tabs) : oracles :=
   let '(sc, cu, pw, md, sp) := t in
   {| o_score := tab_gen eqb (0#1)%Q sc;
-     o_cutoff := tab_gen eqb (1#1)%Q cu;
+     o_cutoff := fun peps q => tab_gen eqb (1#1)%Q cu (peps, q);
      o_pow10neg := tab_q pw;
      o_md5 := tab_str md;
      o_split := oracle_lookup (map (fun kv => (mkg (fst kv), map mkg (snd kv))) sp) |}.
 
-Definition c07_in := (method * c07_tabs * pil * bool * Q * list (list nat))%type.
+Definition c07_in := (method * c07_tabs * pil * bool * Q * Q * list (list nat))%type.
 Definition c07_out := res (list rowT).
 Definition run07 (c : c07_in) : c07_out :=
-  let '(me, t, l, ka, thr, pis) := c in
-  match snd (run me (mk_oracles t) fresh l ka thr pis) with
+  let '(me, t, l, ka, thr, pc, pis) := c in
+  match snd (run me (mk_oracles t) fresh l ka thr pc pis) with
   | Ok rows => Ok (map row_tuple rows)
   | Raise e => Raise e
   end.
